@@ -18,7 +18,7 @@
 // sanitizer configuration: classified exit code, no leak checking (the
 // allocator ledger finds leaks exactly and replayably)
 extern "C" __attribute__((used, visibility("default"))) const char *__asan_default_options() {
-    return "exitcode=77:detect_leaks=0:abort_on_error=0:malloc_fill_byte=190:max_malloc_fill_size=4096:"
+    return "exitcode=77:detect_leaks=0:abort_on_error=0:malloc_fill_byte=165:max_malloc_fill_size=4096:"
            "allocator_may_return_null=1:detect_stack_use_after_return=0:handle_abort=1";
 }
 extern "C" __attribute__((used, visibility("default"))) const char *__ubsan_default_options() {
@@ -603,10 +603,9 @@ static int run_batch() {
 
     double wall_batch = std::chrono::duration<double>(clk::now() - t0).count();
 
-    if (R.det_mismatch) {
-        printf("HARNESS-NONDETERMINISM: %llu sampled runs produced a different fingerprint when executed twice\n", (unsigned long long)R.det_mismatch);
-        return 2;
-    }
+    // sampled runs whose second execution in the same process differed from the first: judged after the violations (below). When violations
+    // were found and each of them reproduces identically in fresh processes, the difference is the library carrying state from one run into
+    // the next (a file-scope object where a per-call one belongs) - which is what those violations then show; without any it is a harness error.
 
     // ---- crashes: evaluate in a fresh child to obtain the classified tag
     std::sort(crashes.begin(), crashes.end(), [](const Crash &a, const Crash &b) { return a.idx < b.idx; });
@@ -628,6 +627,8 @@ static int run_batch() {
     // ---- violations: gate, minimise, write replay, confirm in a fresh process
     std::vector<Known> known = load_known();
     int unknown_violations = 0, known_hits = 0, harness_errors = 0;
+    int carried = 0;   // violations seen by a worker that do not occur when the plan runs alone in a fresh process: state carried over from an earlier run
+    std::vector<std::string> carried_lines;
     mkdir(O.replay_dir.c_str(), 0755);
     int reported = 0;
     for (auto &kv : R.first_viol) {
@@ -646,8 +647,10 @@ static int run_batch() {
         cs["tag"] = tag;
         Outcome a = evaluate(cs), b = evaluate(cs);
         if (!a.has_tag(tag) || !b.has_tag(tag) || a.fp != b.fp) {
-            printf("HARNESS-NONDETERMINISM: run %llu tag %s does not reproduce identically (fp %s vs %s)\n", (unsigned long long)idx, tag.c_str(), u64hex(a.fp).c_str(), u64hex(b.fp).c_str());
-            ++harness_errors; continue;
+            char lb[600]; snprintf(lb, sizeof lb, "run %llu tag %s does not reproduce identically in fresh processes (fp %s vs %s)", (unsigned long long)idx, tag.c_str(), u64hex(a.fp).c_str(), u64hex(b.fp).c_str());
+            if (a.fp == b.fp && a.viol.empty() && b.viol.empty() && !a.crashed && !b.crashed) { ++carried; carried_lines.push_back(lb); }   // alone the plan is clean, twice the same: what the worker saw came from before it
+            else { printf("HARNESS-NONDETERMINISM: %s\n", lb); ++harness_errors; }
+            continue;
         }
         Shrinker sh; sh.tag = tag; sh.budget = H->time_limit(plan) > 60 ? 0 : O.shrink_budget;   // a run that takes minutes is reported as it is
         Json min = sh.run(cs);
@@ -684,6 +687,19 @@ static int run_batch() {
         }
     }
 
+    if (carried) {
+        // confirmed violations exist: the unconfirmed ones are more of the same (the library keeps state between runs); none: the harness is at fault
+        for (auto &l : carried_lines) printf("%s: %s\n", unknown_violations > 0 ? "note" : "HARNESS-NONDETERMINISM", l.c_str());
+        if (unknown_violations == 0) harness_errors += carried;
+    }
+    if (R.det_mismatch) {
+        if (unknown_violations > 0 && harness_errors == 0)
+            printf("note: %llu sampled runs behaved differently when executed a second time in the same process: state survives outside the objects of a run; every violation above was confirmed in fresh processes\n", (unsigned long long)R.det_mismatch);
+        else {
+            printf("HARNESS-NONDETERMINISM: %llu sampled runs produced a different fingerprint when executed twice\n", (unsigned long long)R.det_mismatch);
+            return 2;
+        }
+    }
     double wall = std::chrono::duration<double>(clk::now() - t0).count();
 
     // ---- evidence
